@@ -51,18 +51,19 @@ impl Package {
     Fn(PKG, 'verify_signature', impl='impl Package',
        subs=[ret(),
              ('V: signature::Verifying<Signature = Vec<u8>>', 'V: signature::Verifying', 1, 'R5-associated-type-binding'),
-             ('for base64_sig in openpgp_signatures.iter()', 'for base64_sig in vi: openpgp_signatures.iter()', None, 'R15-for-loop-ghost-iterator-name'),
              ] + ALLOC_RULES,
        spec='''    ensures
         r is Ok ==> sig_ok(*self, verifier),''',
-       loops={0: '''                invariant
+       # R8: the loop over the OpenPGP signatures as an index loop (so that a body with `continue` is still judged)
+       index_loops={0: ('i_s', '''                invariant
                     header_bytes@ == ser_header(self.metadata.header),
-                    0 <= vi.index@ <= openpgp_signatures@.len(),
-                    forall|k: int| 0 <= k < vi.index@ ==> {
+                    0 <= i_s <= openpgp_signatures@.len(),
+                    forall|k: int| 0 <= k < i_s ==> {
                         &&& b64_spec((#[trigger] openpgp_signatures@[k])@) is Some
                         &&& verifier.accepts(header_bytes@, b64_spec(openpgp_signatures@[k]@)->0)
                     },
-'''},
+                decreases openpgp_signatures@.len() - i_s,
+''')},
        ),
     Raw('''}
 // vacuity canary: must FAIL (verification can succeed)
